@@ -42,6 +42,9 @@ func init() {
 		Trusted:     []string{"golang.org/x/tools go/packages+go/ssa (v0.29.0)", "go-ipfs-log: Log.Values() is the deterministic clock-sorted traversal (oldest first), GetEntries()/RawHeads() are insertion-ordered, OrderedMap.Reverse/Slice/Copy keep or reverse that order", "slices.Reverse reverses in place", "sync.RWMutex semantics; lock identity by owner type + field"},
 		Assumptions: []string{"go-orbit-db calls UpdateIndex with the store's whole oplog after every local append, replication batch and load", "go-orbit-db does not serialise its UpdateIndex calls (local append vs replication/load may overlap)", "one mutex per index object (lock identity is the class owner type + field)"},
 		Floors:      map[string]int{"D1": 1, "D2": 2, "D3": 12, "D4": 25, "D5": 5, "D6": 1, "D7": 1, "D8": 15, "D9": 1},
+		Borrows: []Borrow{
+			{From: "C07", Rules: []string{"D7"}, Why: "the state is a function of the whole entry set only if the index scan visits every entry: leaving the scan loop early (break / return nil on an unknown type, an undecodable entry or a handler error) makes the state depend on what happens to lie newer than the entry that stopped it"},
+		},
 		Run:         runC04,
 	})
 }
